@@ -11,12 +11,12 @@ R = json.loads((V / "seeded" / "RESULTS.json").read_text())
 def compact():
     """one row per property, one column per variant: verdict of the property's own check (+ = caught with a concrete
     failing input, p = caught by a broken proof/correspondence only, MISS), other catching checks in brackets"""
-    print("| property | " + " | ".join("ABCDEF") + " |")
-    print("|---|" + "---|" * 6)
+    print("| property | " + " | ".join("ABCDEFGJ") + " |")
+    print("|---|" + "---|" * 8)
     for i in range(1, 21):
         own = f"C{i:02d}"
         cells = []
-        for v in "ABCDEF":
+        for v in "ABCDEFGJ":
             r = R.get(f"{own}_{v}")
             if not r or not r.get("verified"):
                 cells.append("–"); continue
